@@ -61,7 +61,7 @@ impl Property for C12 {
     }
 
     fn cases(tier: Tier) -> u64 {
-        tier.pick(5_000, 60_000)
+        tier.pick(5_000, 250_000)
     }
 
     fn strategy(_tier: Tier) -> BoxedStrategy<Case> {
